@@ -50,6 +50,9 @@ package round
 //@   ensures result1 == nil ==> result0 != nil
 //@   ensures typeis(result0, *Abort) ==> result0.(*Abort).Err != nil
 //@   ensures typeis(result0, *Output) ==> result0.(*Output).Result != nil
+// the round handed back belongs to the same session and is one of the rounds it announced (every implementation
+// ensures result0.Number() <= its Helper's FinalRoundNumber and hands the Helper on; FinalRoundNumber() reads that field)
+//@   ensures result1 == nil ==> (result0.Number() <= self.(Session).FinalRoundNumber() && result0.FinalRoundNumber() == self.(Session).FinalRoundNumber())
 
 //@ interface Round method VerifyMessage
 //@   modifies shared
@@ -146,4 +149,4 @@ package round
 // would otherwise hand out its secret -- polynomial.Evaluate refuses with a panic)
 //@   ensures[C20,C05] (result1 == nil && info.Group != nil) ==> forall(x, party.ID, inslice(result0.partyIDs, x) ==> idsc(x) != s_zero())
 //@   loop 1: invariant each(partyIDs[:rangeindex+1], x, idsc(x) != s_zero())
-//@   ensures result1 == nil ==> (result0.hash != nil && result0.hash.h != nil && result0.info.Group == info.Group && result0.info.SelfID == info.SelfID && result0.info.Threshold == info.Threshold && fresh(result0) && !held(result0.mtx))
+//@   ensures result1 == nil ==> (result0.hash != nil && result0.hash.h != nil && result0.info.Group == info.Group && result0.info.SelfID == info.SelfID && result0.info.Threshold == info.Threshold && result0.info.FinalRoundNumber == info.FinalRoundNumber && result0.info.ProtocolID == info.ProtocolID && fresh(result0) && !held(result0.mtx))
